@@ -403,6 +403,9 @@ func panicInHarness(stack string) bool {
 	return false
 }
 
+// PanicInHarness is panicInHarness for monitors that recover in goroutines of their own.
+func PanicInHarness(stack string) bool { return panicInHarness(stack) }
+
 func firstFrames(stack string, n int) string {
 	var out []string
 	for _, l := range strings.Split(stack, "\n") {
